@@ -16,6 +16,36 @@ from vk.specs import dyn as Dn
 LEAK = 1e-9
 
 
+class OpTimeout(Exception):
+    pass
+
+
+class time_limit:
+    """wall-clock guard for one operation of a history (stiff local ODEs can make a single TDVP step take minutes): the operation is then
+    skipped and counted as skipped, never as a violation"""
+
+    def __init__(self, sec):
+        self.sec = sec
+
+    def __enter__(self):
+        import signal
+
+        def h(*a):
+            raise OpTimeout(f"operation exceeded {self.sec}s")
+        try:
+            self.old = signal.signal(signal.SIGALRM, h)
+            signal.alarm(self.sec)
+        except ValueError:      # not in the main thread
+            self.old = None
+
+    def __exit__(self, *a):
+        import signal
+        if self.old is not None:
+            signal.alarm(0)
+            signal.signal(signal.SIGALRM, self.old)
+        return False
+
+
 class Live:
     def __init__(self, obj, tag):
         self.obj = obj
@@ -249,7 +279,8 @@ def walk(name, n, seed, length, led, clauses, tier="quick", with_evolve=True):
                 A = Live(src, f"#{step}:canonical-copy")
                 pool.append(A)
                 Dn.set_evolve(src, meth, M=32, ivp_solver=solver, guess_dt=dt / 2 if imag else 0.1)
-                r = src.evolve(H, dt)
+                with time_limit(30):
+                    r = src.evolve(H, dt)
                 new = Live(r, f"#{step}:evolve")
                 pool.append(new)
                 import scipy.linalg
